@@ -82,3 +82,11 @@ CASES = [
       "self.data[aa,bb,aa,bb] -= (ht[aa,Nt-1]\n                                               +numpy.conj(ht[bb,Nt-1]))",
       "self.data[aa,bb,aa,bb] -= (numpy.conj(ht[bb,Nt-1])\n                                               +ht[aa,Nt-1])"),
 ]
+
+CASES += [
+    m("TD-Redfield mask written to the raw storage", "C01-C", R + "tdredfieldtensor.py",
+      "                                    self.data[:,ii,jj,kk,ll] = 0", "                                    self._data[:,ii,jj,kk,ll] = 0"),
+    t("mask written through an alias of the managed property", R + "relaxationtensor.py",
+      "                if self.data.ndim == 4:\n                    N = self.data.shape[0]\n                    for ii in range(N):\n                        for jj in range(N):\n                            for kk in range(N):\n                                for ll in range(N):\n                                    if not (((ii == jj) and (kk == ll)) \n                                        or ((ii == kk) and (jj == ll))) :\n                                            self.data[ii,jj,kk,ll] = 0",
+      "                if self.data.ndim == 4:\n                    N = self.data.shape[0]\n                    dta = self.data\n                    for ii in range(N):\n                        for jj in range(N):\n                            for kk in range(N):\n                                for ll in range(N):\n                                    if not (((ii == jj) and (kk == ll)) \n                                        or ((ii == kk) and (jj == ll))) :\n                                            dta[ii,jj,kk,ll] = 0"),
+]
